@@ -16,6 +16,7 @@ polarization term (C02); the frame change global↔local is a rigid motion (C03)
    the quadrature oracle integrates the defining integral numerically against the real code. -/
 -/
 import Mathlib.Analysis.SpecialFunctions.Integrals.Basic
+import MagpyVerif.Lemmas.KernelLiterals
 import Mathlib.Analysis.SpecialFunctions.Sqrt
 import MagpyVerif.Lemmas.KernReal
 import MagpyVerif.Lemmas.SegmentBS
